@@ -27,7 +27,10 @@ impl World for W {
     }
 }
 
+mod filter;
+mod runner;
 mod summarize;
+mod retry_options;
 
 fn main() {
     let path = env::args().nth(1).expect("script path");
@@ -44,6 +47,9 @@ fn main() {
         .expect("mode line");
     match mode.as_str() {
         "summarize" | "events" => summarize::run(&lines),
+        "retry_options" => retry_options::run(&lines),
+        "runner" => runner::run(lines.clone(), text.clone()),
+        "filter" => filter::run(),
         m => panic!("unknown mode {m}"),
     }
 }
